@@ -134,10 +134,31 @@ def check_occluders(ctx, R="C17.occluders"):
     ctx.floor(R, len(loops), 2, "occlusion loops in canSee")
     # roles (never names): the map ray -> distance at which the target is hit, the candidate-ray set seeded from its keys,
     # and the distance of a point target
-    tmaps = {unparse(v.args[0].func.value) for n in walk_local(fn) if isinstance(n, ast.Assign) for v in [n.value] if isinstance(v, ast.Call) and dotted(v.func) == "set" and v.args and isinstance(v.args[0], ast.Call) and isinstance(v.args[0].func, ast.Attribute) and v.args[0].func.attr == "keys"}
-    cand = set(lib.locals_assigned(fn, lambda v: isinstance(v, ast.Call) and dotted(v.func) == "set" and v.args and isinstance(v.args[0], ast.Call) and isinstance(v.args[0].func, ast.Attribute) and v.args[0].func.attr == "keys"))
+    def keyset(v):
+        """v (locals replaced by their definitions) is set(<map>.keys()): returns the text of <map>"""
+        if not (isinstance(v, ast.Call) and dotted(v.func) == "set" and v.args):
+            return None
+        a = v.args[0]
+        for _ in range(4):  # an extracted argument stands for its definition; the map itself keeps its name
+            d = lib.local_value(fn, a.id) if isinstance(a, ast.Name) else None
+            if d is None:
+                break
+            a = d
+        if isinstance(a, ast.Call) and isinstance(a.func, ast.Attribute) and a.func.attr == "keys":
+            return unparse(a.func.value)
+        return None
+
+    tmaps = {keyset(n.value) for n in walk_local(fn) if isinstance(n, ast.Assign) and isinstance(n.value, ast.Call) and dotted(n.value.func) == "set"} - {None}
+    cand = set(lib.locals_assigned(fn, lambda v: isinstance(v, ast.Call) and dotted(v.func) == "set" and keyset(v) is not None))
     posp = fn.args.args[0].arg
-    tdist = set(lib.locals_assigned(fn, lambda v: isinstance(v, ast.Call) and unparse(v.func) == f"{posp}.distanceTo" and len(v.args) == 1 and isinstance(v.args[0], ast.Name)))
+    tgtp = next((a.arg for a in fn.args.args if a.arg == "target"), fn.args.args[7].arg if len(fn.args.args) > 7 else None)
+    # the distance of a point target: <viewer position>.distanceTo(<something computed from the target parameter>)
+    tdist = set(
+        lib.locals_assigned(
+            fn,
+            lambda v: isinstance(v, ast.Call) and unparse(v.func) == f"{posp}.distanceTo" and len(v.args) == 1 and tgtp in lib.names_loaded(lib.role_expr(fn, v.args[0])),
+        )
+    )
     if not tmaps or not cand or not tdist:
         raise AnalysisError("shape not recognised: target distance map / candidate rays / target distance of canSee")
     for lp in loops:
